@@ -96,8 +96,9 @@ type muxHandle struct {
 	id     string
 	reads  bool
 	mu     sync.Mutex
-	del    [][2]int
-	closed bool
+	del     [][2]int
+	closed  bool
+	aborted bool // SetDeadline(now) + Close were called on this handle
 }
 
 type muxRun struct {
@@ -385,6 +386,30 @@ func (r *muxRun) step(a muxAct) {
 				r.startReader(h)
 			}
 		}
+	case "HAbort":
+		// what an agent does when it drops a candidate: SetDeadline(now) and Close on ITS handle. Only done to a handle that has
+		// a sibling on the same packet connection and is not the one the driver reads through: the packet connection, its TCP
+		// connections and the sibling are not to notice (the mux model does not: the event is a stutter).
+		if a.H < 1 || a.H > len(r.hs) {
+			skip("no such handle")
+
+			break
+		}
+		h := r.hs[a.H-1]
+		sibling := false
+		for i, o := range r.hs {
+			if i != a.H-1 && o.id == h.id && !o.aborted {
+				sibling = true
+			}
+		}
+		if !sibling || r.readers[h.id] == h || h.aborted {
+			skip("no sibling handle, or the handle the driver reads through")
+
+			break
+		}
+		h.aborted = true
+		_ = h.pc.SetDeadline(time.Now())
+		_ = h.pc.Close()
 	case "Remove":
 		r.mux.RemoveConnByUfrag(a.U)
 	case "Close":
